@@ -23,6 +23,9 @@ def gen(module):
     return run
 
 
+# checks with a concurrent half explored by the controlled scheduler (engine T)
+SCHEDULER_CHECKS = {"C08", "C10", "C12", "C13"}
+
 CHECKS = {
     "C05": gen("c05"),
     "C16": gen("c16"),
